@@ -81,14 +81,16 @@ def family(name, perm=None, irf="none", mc_order=None, ds_order=None, d2_perm=No
         md["megacomplex"]["mA"] = {"type": "decay", "k_matrix": ["kmA"]}
         md["megacomplex"]["mB"] = {"type": "decay", "k_matrix": ["kmB"]}
         md["dataset"]["d1"].update({"megacomplex": ["mA", "mB"], "initial_concentration": "j1"})
-    elif name in ("oscillation", "pfid"):
+    elif name in ("oscillation", "pfid", "oscillation_mixed"):
         labs = ["o1", "o2", "o3"]
-        f = {"o1": 25.0, "o2": 60.0, "o3": 140.0} if name == "oscillation" else {"o1": 610.0, "o2": 640.0, "o3": 700.0}
+        f = {"o1": 25.0, "o2": 60.0, "o3": 140.0} if name != "pfid" else {"o1": 610.0, "o2": 640.0, "o3": 700.0}
         r = {"o1": 0.3, "o2": 1.1, "o3": 2.5} if name == "oscillation" else {"o1": -0.8, "o2": -1.5, "o3": -3.0}
+        if name == "oscillation_mixed":  # rising and decaying oscillations side by side
+            r = {"o1": -0.8, "o2": 0.5, "o3": 1.5}
         for l in labs:
             vals[f"f.{l}"] = f[l]
             vals[f"r.{l}"] = r[l]
-        md["megacomplex"]["m1"] = {"type": "damped-oscillation" if name == "oscillation" else "pfid", "labels": p(labs),
+        md["megacomplex"]["m1"] = {"type": "damped-oscillation" if name != "pfid" else "pfid", "labels": p(labs),
                                    "frequencies": p([f"f.{l}" for l in labs]), "rates": p([f"r.{l}" for l in labs])}  # fmt: skip
         md["dataset"]["d1"]["megacomplex"] = ["m1"]
     elif name == "spectral":
@@ -277,7 +279,7 @@ def run(run: core.Run):
     perms = []
     for fam, n, irfs in (("parallel", 3, ("none", "plain", "dispersed")), ("parallel", 4, ("none", "dispersed")),
                          ("decay", 3, ("none", "dispersed")), ("decay", 5, ("none",)), ("decay2", 4, ("none", "plain")), ("chain4", 4, ("none", "plain")),
-                         ("oscillation", 3, ("none", "plain", "dispersed")), ("pfid", 3, ("dispersed",)), ("spectral", 3, ("none",))):  # fmt: skip
+                         ("oscillation", 3, ("none", "plain", "dispersed")), ("oscillation_mixed", 3, ("none", "plain", "dispersed")), ("pfid", 3, ("dispersed",)), ("spectral", 3, ("none",))):  # fmt: skip
         for irf in irfs:
             all_p = list(itertools.permutations(range(n)))[1:]
             if n >= 5 and quick:
